@@ -57,9 +57,9 @@ claim(
 
 claim(
     "C02",
-    "Lean 4 proof (soundness and completeness of the parser model w.r.t. an inductive grammar, separator-exchange, token-cover) + regenerated grammar/lexer tables + differential correspondence with sly's lexer and parser",
-    "Theorems C02_sound, C02_complete, C02_unique, C02_accepts_iff, C02_no_fuel_error prove that the parser model accepts a token string exactly when the Jaqal grammar (an independent inductive derivation relation) derives it, with a unique tree; C02_sep_exchange(_semi/_bar/_result) that exchanging any subset of `;`/`|` separators with newlines never changes the result; C02_no_drop that lexing covers the text with blanks, comments and exactly the reported tokens in order (nothing outside a comment is dropped); C02_layout that inserting or removing, between two tokens, blanks, block comments, line comments in front of a newline and blank lines next to a newline never changes acceptance or the tree (text level, every text); C02_error_pos_partial that a reported error position is a token start of the text, the offset where lexing fails, or EOF. The model is tied to /repo by table regeneration (88 productions, token rules, zero sly conflicts) and by exact comparison of acceptance, S-expression and (line, column) on grammar-directed programs under random layout, token and character mutants and noise.",
-    COMMON_NOTE + "Not proved (kept as a named proposition, covered by the direct oracle reject_position on the real code): the viability half of the error-position statement (C02_error_pos_full: the reported token is the FIRST one no continuation can follow). sly's LALR construction and Python `re` are trusted.",
+    "Lean 4 proof (soundness and completeness of the parser model w.r.t. an inductive grammar, separator-exchange, token-cover, text-level layout equivalence, first-non-viable-token error positions, tokenizer = regex matcher on the regenerated rule table) + regenerated grammar/lexer tables + differential correspondence with sly's lexer and parser",
+    "Theorems C02_sound, C02_complete, C02_unique, C02_accepts_iff, C02_no_fuel_error prove that the parser model accepts a token string exactly when the Jaqal grammar (an independent inductive derivation relation) derives it, with a unique tree; C02_sep_exchange(_semi/_bar/_result) that exchanging any subset of `;`/`|` separators with newlines never changes the result; C02_no_drop that lexing covers the text with blanks, comments and exactly the reported tokens in order (nothing outside a comment is dropped); C02_layout that inserting or removing, between two tokens, blanks, block comments, line comments in front of a newline and blank lines next to a newline never changes acceptance or the tree (text level, every text); C02_error_pos_full / C02_error_eof_full that a reported error position is that of the FIRST token after which no continuation is syntactically possible (the tokens before it have a continuation, they plus the offending token have none), and EOF only when the whole text is a viable prefix that is not a program; C02_error_pos_partial that the position is a token start of the text, the offset where lexing fails, or EOF; C02_regex that the model's hand-written tokenizer equals a generic backtracking regex matcher run on the token-rule table, which a translator regenerates from the loaded JaqalLexer's master pattern on every run (JaqalModel/Generated/LexerRules.lean). The model is tied to /repo by table regeneration (88 productions, token rules as regex ASTs, zero sly conflicts) and by exact comparison of acceptance, S-expression and (line, column) on grammar-directed programs under random layout, token and character mutants and noise.",
+    COMMON_NOTE + "Viability is stated against the context-free part of the grammar (Spec/Grammar.lean: Syntax — the productions without the two action side conditions), which is what an LALR parser can see. sly's LALR construction and Python `re` are trusted; the regex semantics used by C02_regex (ordered alternation, greedy / lazy repetition, backtracking) is the model's own (Spec/Regex.lean) and is compared with Python's by differential lexing. The entry-point stream harness/agents/c02_entry.py checks that all sixteen public parser entry points agree on acceptance, tree and position, and that no result depends on earlier calls.",
     "DESIGN.md §7 C02",
 )
 claim(
@@ -72,8 +72,8 @@ claim(
 claim(
     "C09",
     "Lean 4 proof (the pass equals an explicit tree map; flat-sequence lemma) + differential correspondence with expand_subcircuits + direct execution oracle on both spellings",
-    "Theorems C09_shape(_subcircuit/_other/_body), C09_none_left, C09_defs(_native), C09_header, C09_flat(_subcircuit/_sem), C09_idempotent, C09_total, C09_param_rejected prove that every subcircuit block (in the body and in every macro body) becomes a sequential block prepare :: body ++ [measure] with the native / caller-supplied / default definitions, nothing else changes, none remains, and the flat gate sequence is the input's with each subcircuit bracketed by prepare/measure. That `subcircuit { B }` is executed and reported like `prepare_all; B; measure_all` follows from C08/C12 (walkers refine to flat/unrolled order) and is checked on the real emulator and output parser for both spellings of generated programs.",
-    COMMON_NOTE + "The execution half is a corollary argued through C08/C12 plus a direct oracle, not a single Lean theorem over the whole pipeline.",
+    "Theorems C09_shape(_subcircuit/_other/_body), C09_none_left, C09_defs(_native), C09_header, C09_flat(_subcircuit/_sem), C09_idempotent, C09_total, C09_param_rejected, C09_exec prove that every subcircuit block (in the body and in every macro body) becomes a sequential block prepare :: body ++ [measure] with the native / caller-supplied / default definitions, nothing else changes, none remains, and the flat gate sequence is the input's with each subcircuit bracketed by prepare/measure. C09_exec (Props/C09Exec.lean) states the execution half over the whole run model: running the explicit spelling gives exactly the run summary (subcircuits in order, visits, serialised gates of every trace, or the same rejection) of running the original, for every circuit and override list; both spellings of generated programs are also run on the real emulator and output parser.",
+    COMMON_NOTE + "C09_exec is a theorem about RunModel.runCircuit (the composition of the pass, walker, serialiser and discovery models validated by the C16 correspondence run_model); outcomes themselves (sampling) are outside the model.",
     "DESIGN.md §7 C09",
 )
 claim(
@@ -165,8 +165,16 @@ claim(
     "DESIGN.md §7 C16",
 )
 
+claim(
+    "C01",
+    "Lean 4 proof (round trip cut into token / text / rebuild layers: the generator's tokens derive the circuit's statement tree in the grammar, lexing the generated text gives those tokens, the builder maps the tree back to the same circuit; complete literal layer) + differential correspondence of the whole round trip and of each layer with generate_jaqal_program / parse_jaqal_string",
+    "Theorems C01_float_roundtrip, C01_int_roundtrip, C01_num_roundtrip, C01_*_stable, C01_no_token_merge*, C01_readers_are_the_regexes (every numeric literal the generator can write — both repr layouts, ±0.0, exponents — is read back as one token with the same value, byte-stable); C01_tokens_derive / C01_parse_toks (the tokens written for ANY printable circuit are a program of the grammar with tree unbuild c, so the parser returns exactly that tree); C01_printable, C01_no_same_kind_nesting, C01_wf (every circuit parse_jaqal_string returns is printable and well-formed, in any statement order); C01_rebuild_canonical (for programs in the generator's statement order — every generated text is one — the builder maps unbuild c back to exactly c); C01_lex_gen (lexing the generated text gives the tokens, for printable LexSafe circuits); C01_roundtrip_canonical (their composition: parse(generate(c)) == c and generate(parse(generate(c))) = generate(c)); C01_compose and C01_roundtrip_partial reduce the unrestricted statement to two named propositions; C01_builder_api, C01_zero_step_rejected, C01_no_literal_zero_step, C01_asInteger_idem, C01_subcount_fixpoint, C01_slice_stop_fixpoint cover the builder-API spellings.",
+    COMMON_NOTE + "Not proved, kept as named propositions with the missing lemma named (Props/C01.lean): C01_reorder_full (an accepted program whose statements are NOT in the generator's order builds the same circuit as its reordering) and C01_lexsafe_full (every parser-produced circuit is LexSafe; false beyond CPython's 4300-digit integer limit, where the real code fails earlier). The unrestricted C01_roundtrip_full follows from them by C01_roundtrip_partial; the differential harness evaluates every layer statement (incl. exact rebuild) on every generated program, in random statement orders, next to the real round trip, and after every pass. C01_meaning is conditional on ParserLike (no parameter shadowing a register the argument's source refers to).",
+    "DESIGN.md §7 C01",
+)
+
 ALL = [f"C{n:02d}" for n in range(1, 21)]
-READY = {"C02", "C03", "C04", "C05", "C06", "C07", "C10", "C16", "C08", "C09", "C11", "C12", "C13", "C14", "C15", "C17", "C18", "C19", "C20"}  # checks that are built, pass on the unchanged tree and are registered
+READY = {"C01", "C02", "C03", "C04", "C05", "C06", "C07", "C10", "C16", "C08", "C09", "C11", "C12", "C13", "C14", "C15", "C17", "C18", "C19", "C20"}  # checks that are built, pass on the unchanged tree and are registered
 
 
 def main():
